@@ -26,7 +26,9 @@ func fzTokens() []fzTok {
 		"$9223372036854775808", "$+1", "$1e3", "$$", "$1$2", "$1()", "$2()", "$ 1", "$1.GetName()", "$1.Inner().X", "$2.", "$2..X", "$.X", "$0.ID")
 	add("dotted-empty", "A..B", ".A", "A.", ".", "..", "In..X", ".In.X", "In.X.", "...", "In.", ".In")
 	add("paren", "A()", "A().", "().A", "A()()", "()", "(", ")", "GetName()", "GetName()()", "Inner().X", "Inner()..X", "Inner().",
-		"Risky()", "Title()", "GetName(", "GetName)", "Get()Name", "In().X", "ID()", "GetName().Len()", "Inner().X()", "Inner()()", "().", "(.)", "In.X()", "Inner().Q", "Risky().X")
+		"Risky()", "Title()", "GetName(", "GetName)", "Get()Name", "In().X", "ID()", "GetName().Len()", "Inner().X()", "Inner()()", "().", "(.)", "In.X()", "Inner().Q", "Risky().X",
+		// methods whose result list is not that of a getter
+		"Reset()", "Reset().X", "Pair()", "Pair().X", "Triple()", "ErrOnly()", "ErrOnly().X", "WithArg()", "Variadic()", "FuncResult()", "FuncResult()()", "$1.Reset()", "$1.Pair()", "$1.ErrOnly()")
 	add("slash", "/", "//", "/a", "a/", "/a/b/", `/\/`, "///")
 	add("regexp-bad", "/(/", "/[/", "/)/", "/a{2,1}/", `/\C/`, `/\8/`, "/a**/", "/(?i/", `/\pX/`, `/[a-\d]/`, `/\x{110000}/`, "/a{1001}/",
 		"/((a{100}){100}){100}/", "/(?P<n>a/", "/[[:foo:]]/", `/\`+`/`, "/?/", "/*/", "/+/", "/(?z)/", "/x{/"+"}/", `/\p{Foo}/`)
